@@ -332,6 +332,30 @@ pub fn run(ctx: &Ctx) -> Outcome {
         deep = RType::Complex(if d % 2 == 0 { path("a::B") } else { path("c9") }, if d % 3 == 0 { vec![deep.clone(), RType::Path(path("B"))] } else { vec![deep.clone()] });
         all.push(deep.clone());
     }
+    // types that are large in one dimension: identifier length, path length, number of generic arguments,
+    // nesting depth with two arguments per level, renderings beyond 100 / 255 / 4096 bytes
+    {
+        let long = |n: usize| -> String { format!("A{}", "a".repeat(n - 1)) };
+        for n in [31usize, 32, 63, 64, 99, 100, 101, 127, 128, 255, 256, 300, 4096] {
+            all.push(RType::Path(vec![long(n)]));
+            all.push(RType::Complex(vec![long(n)], vec![RType::Unit, RType::Path(path("B"))]));
+            all.push(RType::Complex(path("a::B"), vec![RType::Path(vec![long(n)]), RType::Path(vec![long(n), "c9".into()])]));
+        }
+        for k in [9usize, 10, 11, 16, 17, 32, 33, 64, 100, 257] {
+            all.push(RType::Path((0..k).map(|i| format!("s{i}")).collect()));
+            all.push(RType::Complex((0..k).map(|i| format!("s{i}")).collect(), vec![RType::Unit, RType::Unit]));
+            all.push(RType::Complex(path("a"), (0..k).map(|i| if i % 3 == 0 { RType::Unit } else { RType::Path(vec![format!("P{i}")]) }).collect()));
+            all.push(RType::Complex(path("B::c9"), (0..k).map(|i| RType::Complex(vec![format!("Q{i}")], vec![RType::Unit, RType::Path(path("a::B"))])).collect()));
+        }
+        for d in [16usize, 17, 24, 31, 32, 33, 48, 64, 100, 128, 200] {
+            let mut x = RType::Unit;
+            for l in 0..d {
+                x = RType::Complex(vec![format!("g{}", l % 10)], vec![RType::Path(path("B")), x]);
+            }
+            all.push(x);
+        }
+        all.push(RType::Complex(path("std::collections::HashMap"), vec![RType::Path(path("std::string::String")), RType::Complex(path("std::vec::Vec"), vec![RType::Complex(path("std::option::Option"), vec![RType::Complex(path("std::collections::BTreeMap"), vec![RType::Path(path("u64")), RType::Path(path("std::string::String"))])])])]));
+    }
     let n = all.len();
     let accs: Vec<Acc> = (0..n)
         .into_par_iter()
